@@ -292,6 +292,28 @@ Definition sc_dump (k : nat) (store : bytes -> option bytes) (roots : list bytes
   | (bs, evs, ok) => (ld hb ++ bs, evs, ok)
   end.
 
+(* ---- several Dag entries: NewSelectiveCar(ctx, store, []Dag{{root_1, sel_1}, ...}) ------------------ *)
+(* traverseBlocks: for every Dag in order, Load(root) and walk its selector through the SAME loader
+   (one cidSet, one running offset); the first walk that fails aborts the rest.  The oracle is one
+   trace per Dag: what that (root, selector) walk opens under the options, root first. *)
+Fixpoint dag_loads (ds : list (bytes * trace)) : list block * bool :=
+  match ds with
+  | [] => ([], true)
+  | d :: t =>
+    if t_ok (snd d)
+    then (blocks_of (t_loads (snd d)) ++ fst (dag_loads t), snd (dag_loads t))
+    else (blocks_of (t_loads (snd d)), false)
+  end.
+(* header roots = the roots of ALL Dag entries, in order (traverseHeader) *)
+Definition dag_roots (ds : list (bytes * trace)) : list bytes := map fst ds.
+
+Definition sc_write_dags (k : nat) (ds : list (bytes * trace)) : bytes * list (nat * cb) * bool :=
+  sc_write k (dag_roots ds) (fst (dag_loads ds)) (snd (dag_loads ds)).
+Definition sc_prepare_dags (ds : list (bytes * trace)) : option (N * list bytes * list bytes) :=
+  sc_prepare (dag_roots ds) (fst (dag_loads ds)) (snd (dag_loads ds)).
+(* the store.Get calls of one run, in order *)
+Definition sc_gets_dags (ds : list (bytes * trace)) : list bytes := map fst (fst (dag_loads ds)).
+
 (* ---- root module: car.go WriteCar / WriteCarWithWalker -------------------------------- *)
 (* merkledag.Walk presents CIDs to seen.Visit; on a first visit enumGetLinks fetches the node
    and writes its section.  [vs] = the CIDs presented, each with the bytes the NodeGetter
